@@ -6,5 +6,6 @@ FINGERPRINTS = {
     "measurements.BaseMeasurements.poisson_noise": ("abtem/measurements.py", "BaseMeasurements.poisson_noise"),
     "array.ArrayObject.apply_transform": ("abtem/array.py", "ArrayObject.apply_transform"),
     "array.ArrayObject._apply_transform": ("abtem/array.py", "ArrayObject._apply_transform"),
+    "array.multi_output_blockwise": ("abtem/array.py", "multi_output_blockwise"),
     "phonons.validate_seeds": ("abtem/inelastic/phonons.py", "validate_seeds"),
 }
